@@ -134,6 +134,8 @@ def run(run, scr, tier, seed, only=None):
         win = ['c08_hint_window_0', 'c08_hint_window_2', 'c08_hint_window_4']
         hs = [Harness('verif_kani::c08::' + w, 'C13', timeout=2400, loop_rules=[(r'hint_bit_unpack::<2>', 12)],
                       bounds='hint_bit_unpack::<2>(omega = 8): both count bytes and a 4-byte index window symbolic; every index / overflow / debug assertion of the real decoder') for w in win]
+    if hs:
+        hs.append(Harness('verif_kani::c08::c08_hint_k3_counts', 'C13', timeout=3000, loop_rules=[(r'hint_bit_unpack::<3>', 10)], bounds='hint_bit_unpack::<3>(omega = 6): three count bytes and two position bytes symbolic'))
     if tier == 'thorough':
         hs += [Harness('verif_kani::c10::c10_bit_unpack_eta2', 'C13', timeout=1800, bounds='bit_unpack on every 96-byte string, all default checks')]
     kres = vlib.run_kani(scr, hs, jobs=2)
